@@ -935,6 +935,21 @@ def closure_upvar_operands(parent_fn, closure_id):
     return None, None, None
 
 
+def upvar_sources(F, fn):
+    """for a closure / coroutine body: {upvar name: (parent Fn, Operand captured)} from the aggregate that builds it in its parent"""
+    tab = F.P if fn.form == "P" else F.E
+    par = tab.get(fn.parent)
+    if par is None:
+        return {}
+    ups, _, _ = closure_upvar_operands(par, fn.id)
+    return {n: (par, o) for n, o in (ups or {}).items()}
+
+
+def upvars_from_param(F, fn, param):
+    """names of the upvars of `fn` that capture parameter `param` of its parent"""
+    return {n for n, (par, o) in upvar_sources(F, fn).items() if o.place is not None and param in backslice(par, o, "prov").args}
+
+
 def find_switches(fn, pred=None):
     return [b for b in fn.blocks if b.term.k == "switch" and not b.cleanup and (pred is None or pred(b))]
 
